@@ -88,12 +88,14 @@ pub fn run(ctx: &Ctx, out: &mut Out) {
         crate::c09::replay_history(out, "C12", r);
         return;
     }
+    let passes = if ctx.thorough { 40 } else { 1 };
+    for pass in 0..passes {
     let seed = rng.bytes(32);
     let mut cfg = HConfig::new(&seed);
-    cfg.batch_size = *rng.pick(&[1u8, 7, 64]);
+    cfg.batch_size = if pass == 0 { *rng.pick(&[1u8, 7, 64]) } else { rng.range(1, 64) as u8 };
     let Ok(mut d) = Driver::new(cfg.clone(), 48) else {
         out.inconclusive("server start failed");
-        return;
+        continue;
     };
     let my_srv = d.srv_value.clone();
     let other_srv = srv_value(&RefKey::from_seed(&rng.bytes(32)).public());
@@ -126,7 +128,7 @@ pub fn run(ctx: &Ctx, out: &mut Out) {
             };
             let data = req::ietf_request(&vers, srv.as_deref(), &rng.bytes(32), 1024);
             cases.push(Case { vers: vers.clone(), srv, srv_mode: mode, data });
-            out.case(idx * 3 + ["absent", "correct", "wrong"].iter().position(|m| *m == mode).unwrap() as u64, true);
+            out.case((pass as u64) << 40 | (idx * 3 + ["absent", "correct", "wrong"].iter().position(|m| *m == mode).unwrap() as u64), true);
         }
         idx += ctx.nshards;
     }
@@ -164,8 +166,12 @@ pub fn run(ctx: &Ctx, out: &mut Out) {
         }
         judge(out, &cfg, &mut d, cases);
     }
+    if !ctx.time_left() {
+        break;
+    }
+    }
     if out.samples.is_empty() {
-        out.sample(json!({"request": "VER=[8000000c] SRV=correct", "server_srv": hex(&my_srv)}));
+        out.sample(json!({"request": "VER=[8000000c] SRV=correct", "expected": "answered, SREP.VER=8000000c, VERS contains 8000000c"}));
         out.sample(json!({"request": "VER=[00000000,8000000b] SRV=absent", "expected": "no reply"}));
     }
     for m in ["absent", "correct"] {
